@@ -10,6 +10,7 @@ CONSTANTS
   MaxClient = 4
   MaxCrash = 1
   MaxHalf = 1
+  MaxRead = 0
   MaxSnap = 3
   SnapSize = 1
   AsyncKinds = {}
